@@ -72,8 +72,10 @@ def liesel_update_state_obligations(ctx, ci, rule="C03.R3"):
     ow = [e for e in events if e[0] == "state_overwrite"]
     ok = len(ow) == 1 and not ow[0][3] and events and events[0][0] == "state_overwrite"
     # nothing reads self._model before the overwrite
+    read_through = {x[2] for x in getattr(res, "inlined", [])}
     first_use_line = min([res.calls.ticks[i_c] for i_c, (t, node, _) in enumerate(res.calls)
-                          if any(x == M for x in subterms(t))] + [10 ** 12])
+                          if t not in read_through and any(x == M for x in subterms(t))]
+                         + [10 ** 12])
     ok = ok and (not ow or ow[0][1] <= first_use_line)
     ctx.ob(rule, us, "the whole state of the private model is overwritten with the given "
                      "model_state before anything else touches the model (no dependence on "
